@@ -19,6 +19,7 @@ import KafkaVerif.Lemmas.CodecRT
 import KafkaVerif.Spec.KafkaWire
 import KafkaVerif.Lemmas.GrowthSource
 import KafkaVerif.Gen.Routing
+import KafkaVerif.Gen.DecoderCfg
 
 namespace KV.C04
 open KV KV.Wire KV.Codec
@@ -708,6 +709,21 @@ nothing canonical to send) -/
 theorem request_version_disjoint (cmin cmax bmin bmax : Int) (hc : cmin ≤ cmax) (h : bmax < cmin) :
     KV.Gen.Routing.selectVersionSrc cmin cmax bmin bmax = cmin := by
   simp only [KV.Gen.Routing.selectVersionSrc]
+  (repeat' split) <;> omega
+
+/-- the model skips an unknown tagged field by reading its `size` bytes (`tagLookup = none → readLen`, theorem `skip_unknown_tags`);
+so does the code: fact G11, re-extracted — the unknown branch of `structDecodeFuncOf` is `d.read(size)`, and `decoder.discard`, whose
+fallback for readers without a `Discard` method drains the frame, is only asked for the whole rest of the frame.  This is what makes
+the result independent of the KIND of io.Reader handed to ReadResponse / ReadRequest (the correspondence decodes through three kinds) -/
+theorem source_unknown_tags_are_read : KV.Gen.unknownTagsRead = true := by decide
+
+/-- **the body of a Produce request is in the record format of the negotiated version**: `Prepare` (called by
+protocol.Conn.RoundTrip with the version that goes into the header — C12's `prepare_uses_request_version`) picks message sets
+(magic 1) below v3 and record batches (magic 2) from v3 on, which is what Kafka's Produce layout of that version carries.
+`Gen.Routing.produceRecordVersion` is the symbolic execution of protocol/produce (*Request).Prepare by go/extract/routing. -/
+theorem produce_body_format_for_version (v : Int) :
+    KV.Gen.Routing.produceRecordVersion v = (if v < 3 then 1 else 2) := by
+  unfold KV.Gen.Routing.produceRecordVersion
   (repeat' split) <;> omega
 
 end KV.C04
